@@ -156,22 +156,26 @@ def candidates(case):
 
 
 def hpv_checks(ctx: Ctx, n: int):
-    """HPVUnilateral: split by HPV status, likelihood = sum of the parts (relations on the implementation)."""
+    """HPVUnilateral: split by HPV status; likelihood vs the Coq model (Hpv.hpv_cohort_factors) and vs the sum of the parts."""
     from lymph import models
+    from ..coqterms import coq_patient, coq_uni
+    from ..core import run_coq_cases, lst as _lst
     rng = ctx.rng
+    pending = []
     for _ in range(n):
-        g = {"base": 2, "entries": [["tumor", "T", ["II", "III"]], ["lnl", "II", ["III"]], ["lnl", "III", []]]}
+        g = {"base": rng.choice([2, 2, 3]), "entries": [["tumor", "T", ["II", "III"]], ["lnl", "II", ["III"]], ["lnl", "III", []]]}
         mt = rng.randint(0, 2)
         dists = gen.gen_dists(rng, mt)
         mods = gen.gen_modalities(rng, 1, 1)
-        m = models.HPVUnilateral(gen.graph_dict(g), uni_kwargs={"max_time": mt})
-        m.hpv.set_params(**gen.gen_edge_params(rng, g))
-        m.nohpv.set_params(**gen.gen_edge_params(rng, g))
+        ctor = models.HPVUnilateral.trinary if g["base"] == 3 else models.HPVUnilateral.binary
+        m = ctor(gen.graph_dict(g), uni_kwargs={"max_time": mt})
+        pp, pn = gen.gen_edge_params(rng, g), gen.gen_edge_params(rng, g)
+        m.hpv.set_params(**pp)
+        m.nohpv.set_params(**pn)
         for name, sp, sn, kind in mods:
             m.set_modality(name, sp, sn, kind)
         for t, d in dists.items():
             impl.apply_dist(m, t, d)
-        case = None
         last = None
         for _k in range(rng.randint(1, 3)):
             pats = [gen.gen_patient(rng, [x[0] for x in mods], ["II", "III"]) for _ in range(rng.randint(0, 5))]
@@ -182,7 +186,8 @@ def hpv_checks(ctx: Ctx, n: int):
             m.load_patient_data(df)
             last = (pats, status)
         pats, status = last
-        case = {"class": "HPVUnilateral", "status": status, "n": len(pats)}
+        case = {"class": "HPVUnilateral", "graph": g, "status": status, "patients": pats, "mods": mods, "dists": dists,
+                "max_time": mt, "hpv_params": pp, "nohpv_params": pn}
         ctx.count(case, len(set(map(repr, status))) >= 2, "hpv")
         pos = [i for i, sv in enumerate(status) if sv is True]
         neg = [i for i, sv in enumerate(status) if sv is False]
@@ -198,6 +203,21 @@ def hpv_checks(ctx: Ctx, n: int):
                           {"case": case, "mismatch": {"observable": "HPVUnilateral.likelihood()", "actual": tot, "expected": parts}},
                           {"class": "HPVUnilateral", "call": "likelihood"})
             return
+        base = {"graph": g, "mods": mods, "dists": dists, "max_time": mt}
+        rows = _lst("{| hp_pat := " + coq_patient(p, "ipsi", tmap) + "; hp_status := "
+                    + ("None" if sv is None else f"(Some {'true' if sv else 'false'})") + " |}" for p, sv in zip(pats, status))
+        expr = (f"match hpv_cohort_factors {{| h_hpv := {coq_uni({**base, 'params': pp})}; h_nohpv := {coq_uni({**base, 'params': pn})} |}} "
+                f"{rows} None with inr v => inr (qouts v) | inl e => inl e end")
+        pending.append((case, tot, expr))
+    if pending:
+        vals = run_coq_cases(ctx.work / "hpv", [e for _, _, e in pending], IMPORTS + " LikelihoodProofs Hpv", shard=10)
+        for (case, tot, _), v in zip(pending, vals):
+            mm = _lik_cmp("HPVUnilateral.likelihood()", ("ok", tot), v, True)
+            if mm:
+                mm["statement"] = "cohort likelihood = HPV+ patients under the hpv model + HPV- patients under the nohpv model (C13_hpv_likelihood_is_sum)"
+                ctx.violation("HPV cohort likelihood differs from the model", {"case": case, "mismatch": mm},
+                              {"class": "HPVUnilateral", "call": "likelihood"})
+                return
 
 
 def run(ctx: Ctx, a_ok: bool):
